@@ -877,7 +877,12 @@ func irun(args []string) error {
 				}
 				bcs = append(bcs, bc)
 			}
-			b, err := refmcap.Build(stdFile(bcs))
+			sf := stdFile(bcs)
+			sf.StatsNoPerChannel = i%4 == 3 // "not available" per-channel counts: nothing may be inferred from their absence
+			if i%8 == 5 {
+				sf.MessageIndex = false // ... nor from absent message indexes
+			}
+			b, err := refmcap.Build(sf)
 			if err != nil {
 				return err
 			}
